@@ -14,12 +14,14 @@ Modes == {"std", "pollall"}
 
 \* quick: N = 2 with cancellation, panic and thread interleavings; N = 3 without
 CfgsQuick ==
+  {[reuse |-> TRUE] @@ Mk(k, v, 2, md, <<>>, Bounds(FALSE, 1, 1, 0, 1, 0, FALSE, FALSE, FALSE)) : k \in Kinds, v \in Variants, md \in Modes} \cup
   {Mk(k, v, 2, md, <<>>, Bounds(FALSE, 2, 2, 1, 1, 1, TRUE, TRUE, TRUE)) : k \in Kinds, v \in Variants, md \in Modes}
   \cup {Mk(k, v, 2, md, <<1>>, Bounds(FALSE, 1, 2, 1, 1, 1, FALSE, FALSE, FALSE)) : k \in Kinds, v \in Variants, md \in Modes}
   \cup {Mk(k, v, 3, "std", <<>>, Bounds(FALSE, 1, 2, 1, 1, 1, FALSE, FALSE, FALSE)) : k \in Kinds, v \in Variants}
   \cup {Mk(k, v, n, md, <<>>, Bounds(FALSE, 1, 1, 0, 0, 0, FALSE, FALSE, FALSE)) : k \in Kinds, v \in Variants, md \in Modes, n \in {0, 1}}
 
 CfgsThorough ==
+  CfgsQuick \cup
   {Mk(k, v, 3, md, nv, Bounds(FALSE, 2, 3, 1, 1, 2, TRUE, TRUE, TRUE)) : k \in Kinds, v \in Variants, md \in Modes, nv \in {<<>>, <<0>>, <<1, 2>>}}
   \cup {Mk(k, v, 4, "std", <<>>, Bounds(FALSE, 1, 2, 1, 1, 1, FALSE, FALSE, FALSE)) : k \in Kinds, v \in Variants}
 
